@@ -27,7 +27,9 @@ type FuzzCase struct {
 	Compress bool   `json:"compress,omitempty"`
 	ReadBuf  int    `json:"rbuf,omitempty"`
 	Limit    int64  `json:"limit,omitempty"`
-	Data     []byte `json:"data"`
+	// ReadMsg: drain with ReadMessage instead of NextReader+Read.
+	ReadMsg bool   `json:"readmsg,omitempty"`
+	Data    []byte `json:"data"`
 	Chunks   []int  `json:"chunks,omitempty"`
 	// Headers for entry "headers": name -> values (canonical names).
 	Headers map[string][]string `json:"headers,omitempty"`
@@ -36,7 +38,7 @@ type FuzzCase struct {
 	Subs    []string            `json:"subs,omitempty"`
 }
 
-const c07AllocBase = 16 << 20
+const c07AllocBase = 4 << 20
 
 func checkC07(c FuzzCase, o *Obs) error {
 	before := heapAllocs()
@@ -93,6 +95,23 @@ func fuzzFrames(c FuzzCase) (bool, error) {
 	for i := 0; ; i++ {
 		if i > maxIter {
 			return true, fmt.Errorf("frames: %d NextReader calls succeeded on %d input bytes: the reader loops without consuming input", i, len(c.Data))
+		}
+		if c.ReadMsg {
+			mt, p, err := conn.ReadMessage()
+			if err != nil {
+				if mt == websocket.TextMessage || mt == websocket.BinaryMessage {
+					// the message body failed (e.g. corrupt deflate data);
+					// the connection itself may go on
+					accepted++
+					continue
+				}
+				break
+			}
+			accepted++
+			if int64(len(p)) > int64(len(c.Data))*1100+1<<16 {
+				return true, fmt.Errorf("frames: ReadMessage returned %d bytes from %d input bytes", len(p), len(c.Data))
+			}
+			continue
 		}
 		_, r, err := conn.NextReader()
 		if err != nil {
@@ -370,14 +389,30 @@ func genFuzzCase(t *rapid.T) FuzzCase {
 		if rapid.IntRange(0, 3).Draw(t, "haslimit") == 0 {
 			c.Limit = int64(rapid.IntRange(1, 300).Draw(t, "limit"))
 		}
-		if rapid.IntRange(0, 3).Draw(t, "raw") == 0 {
+		c.ReadMsg = rapid.Bool().Draw(t, "readmsg")
+		switch rapid.IntRange(0, 5).Draw(t, "raw") {
+		case 0:
 			c.Data = rapid.SliceOfN(rapid.Byte(), 0, 200).Draw(t, "rawbytes")
-		} else {
+		case 1:
+			// a conformant prefix followed by a header that claims a huge payload and a few bytes
+			s := genStream(t, SGenOpts{MaxMsgs: 2, Compression: c.Compress, R: c.ReadBuf, MaxLen: 50, NoClose: true})
+			m := BuildStream(s, c.Server, c.Compress)
+			claim := rapid.SampledFrom([]uint64{65535, 65536, 1 << 24, 1 << 31, 1 << 32, 1 << 40, 1 << 62, 1<<63 - 1, 1 << 63, 1<<64 - 1}).Draw(t, "claim")
+			f := wsref.Frame{Fin: rapid.Bool().Draw(t, "hfin"), Opcode: rapid.SampledFrom([]byte{1, 2, 0}).Draw(t, "hop"), Masked: c.Server, Key: [4]byte{1, 2, 3, 4}, Claim: &claim, LenForm: 64,
+				Payload: rapid.SliceOfN(rapid.Byte(), 0, 20).Draw(t, "hpresent")}
+			if claim == 65535 {
+				f.LenForm = 16
+			}
+			c.Data = wsref.AppendFrame(append([]byte(nil), m.Wire...), f)
+		default:
 			s := genStream(t, SGenOpts{MaxMsgs: 3, Compression: c.Compress, R: c.ReadBuf, MaxLen: 300})
 			m := BuildStream(s, c.Server, c.Compress)
 			c.Data = mutateBytes(t, m.Wire)
 		}
 		c.Chunks = genChunks(t, "chunks", len(c.Data))
+		if c.Limit > 0 && rapid.Bool().Draw(t, "nolimit") {
+			c.Limit = 0
+		}
 	case "dialreply", "proxyreply":
 		c.Compress = rapid.Bool().Draw(t, "compress")
 		if rapid.IntRange(0, 4).Draw(t, "raw") == 0 {
@@ -432,6 +467,7 @@ func fuzzCaseFromBytes(entry string, b []byte) FuzzCase {
 	if opt&8 != 0 {
 		c.Limit = int64(opt>>4) + 1
 	}
+	c.ReadMsg = opt&16 != 0
 	if entry == "headers" {
 		c.Headers = map[string][]string{
 			"Connection":            {"Upgrade"},
